@@ -182,10 +182,21 @@ class HedGroup:
 
         tag_list.sort(key=lambda x: str(x[0]))
         group_list.sort(key=lambda x: str(x[0]))
+        # Canonical order (case-folded, independent of member order).  The sort is stable, so the text
+        # as written only decides the order of members that have the same canonical form.
+        tag_list.sort(key=lambda x: self._sort_key(x[1]))
+        group_list.sort(key=lambda x: self._sort_key(x[1]))
         output_list = tag_list + group_list
         if update_self:
             self.children = [x[0] for x in output_list]
         return [x[1] for x in output_list]
+
+    @staticmethod
+    def _sort_key(item):
+        """ Canonical text of a tag or of an already sorted nested list: case-folded, members in sorted order. """
+        if isinstance(item, HedTag):
+            return str(item).casefold()
+        return "(" + ",".join(HedGroup._sort_key(child) for child in item) + ")"
 
     @property
     def is_group(self):
